@@ -41,33 +41,43 @@ func (c *c03x) childElem(v ssa.Value, isComp func(ssa.Value) bool) (idx ssa.Valu
 // countsFromZero: idx is the induction variable of a loop that starts at 0 and steps by 1.
 func (c *c03x) countsFromZero(idx ssa.Value) bool {
 	isK := func(v ssa.Value, k int64) bool { x, ok := c03ConstInt(v); return ok && x == k }
+	// phi with exactly one incoming start constant k (entering the loop), every other incoming value
+	// (back edges: end of body, continue) satisfying next
+	startsAt := func(ph *ssa.Phi, k int64, next func(ssa.Value) bool) bool {
+		nStart := 0
+		for i, e := range ph.Edges {
+			back := ph.Block().Dominates(ph.Block().Preds[i])
+			switch {
+			case !back && isK(e, k):
+				nStart++
+			case back && next(e):
+			default:
+				return false
+			}
+		}
+		return nStart == 1 && len(ph.Edges) >= 2
+	}
 	switch x := idx.(type) {
 	case *ssa.BinOp: // range loop: idx = phi(-1, idx) + 1
 		if x.Op != token.ADD || !isK(x.Y, 1) {
 			return false
 		}
 		ph, ok := x.X.(*ssa.Phi)
-		if !ok || len(ph.Edges) != 2 {
+		if !ok {
 			return false
 		}
-		return (isK(ph.Edges[0], -1) && ph.Edges[1] == idx) || (isK(ph.Edges[1], -1) && ph.Edges[0] == idx)
+		return startsAt(ph, -1, func(e ssa.Value) bool { return e == idx })
 	case *ssa.Phi: // for i := 0; ...; i++
-		if len(x.Edges) != 2 {
-			return false
-		}
-		for i := 0; i < 2; i++ {
-			if isK(x.Edges[i], 0) {
-				if bo, ok := x.Edges[1-i].(*ssa.BinOp); ok && bo.Op == token.ADD && bo.X == idx && isK(bo.Y, 1) {
-					return true
-				}
-			}
-		}
+		return startsAt(x, 0, func(e ssa.Value) bool {
+			bo, ok := e.(*ssa.BinOp)
+			return ok && bo.Op == token.ADD && bo.X == idx && isK(bo.Y, 1)
+		})
 	}
 	return false
 }
 
 func c03Post(r *fw.Run, c *c03x) {
-	ru := r.Rule("C03.post", "postProcess: one-root post-order walk; a compound's Range is assigned from its first counted child and MinMax-folded with every further one; a child is left out only if IsRoot (other buffer) or synthetic; struct children are sorted by slices.SortStableFunc ascending on Range.Start, arrays are not sorted; array children get Index = position counted from 0, struct children -1", 10)
+	ru := r.Rule("C03.post", "postProcess: one-root post-order walk; a compound's Range is assigned from its first counted child and MinMax-folded with every further one; a child is left out only if IsRoot (other buffer) or synthetic; struct children are sorted by slices.SortStableFunc ascending on Range.Start, arrays are not sorted; array children get Index = position counted from 0, struct children -1", 11)
 	p := c.p
 	PP := c.fn(ru, c03Value+"postProcess")
 	if PP == nil {
@@ -107,43 +117,61 @@ func c03Post(r *fw.Run, c *c03x) {
 		st     *ssa.Store
 		child  ssa.Value // the child value f
 		direct bool
+		guards []fw.Guard // conditions under which this variant of the store value is taken
 	}
 	var stores []rs
 	okShape := true
 	why := ""
-	for _, fs := range c.fieldStores(W, c.valueT, "Range") {
-		if !(fs.base.is(v, "") && fs.sub == "") {
-			okShape, why = false, "Range of something other than the visited compound is written (or only part of it)"
-			continue
-		}
-		val := c.canon(fs.st.Val)
+	// classify one candidate value of a store to v.Range: child.Range (direct) or MinMax(v.Range, child.Range)
+	classify := func(val ssa.Value) (child ssa.Value, direct bool, bad string) {
+		val = c.canon(val)
 		if call, ok := val.(*ssa.Call); ok && fw.CalleeName(call) == fw.Mod+"/pkg/ranges.MinMax" {
 			a0, a1 := c.pathOf(call.Common().Args[0]), c.pathOf(call.Common().Args[1])
-			var child ssa.Value
 			if a0.is(v, ".Range") && a1.path == ".Range" {
 				child = a1.root
 			} else if a1.is(v, ".Range") && a0.path == ".Range" {
 				child = a0.root
 			}
 			if child == nil {
-				okShape, why = false, "MinMax is not applied to (v.Range, child.Range)"
-				continue
+				return nil, false, "MinMax is not applied to (v.Range, child.Range)"
 			}
 			if _, ok := c.childElem(child, isComp); !ok {
-				okShape, why = false, "MinMax operand is not a child of the visited compound"
-				continue
+				return nil, false, "MinMax operand is not a child of the visited compound"
 			}
-			stores = append(stores, rs{fs.st, child, false})
-			continue
+			return child, false, ""
 		}
 		pp := c.pathOf(val)
 		if pp.path == ".Range" {
 			if _, ok := c.childElem(pp.root, isComp); ok {
-				stores = append(stores, rs{fs.st, pp.root, true})
-				continue
+				return pp.root, true, ""
 			}
 		}
-		okShape, why = false, "v.Range is assigned something that is neither child.Range nor MinMax(v.Range, child.Range)"
+		return nil, false, "v.Range is assigned something that is neither child.Range nor MinMax(v.Range, child.Range)"
+	}
+	for _, fs := range c.fieldStores(W, c.valueT, "Range") {
+		if !(fs.base.is(v, "") && fs.sub == "") {
+			okShape, why = false, "Range of something other than the visited compound is written (or only part of it)"
+			continue
+		}
+		// the stored value may be chosen by control flow (r := child.Range; if !first { r = MinMax(v.Range, r) }; v.Range = r):
+		// every incoming value is one variant of the store, taken under the conditions of its edge
+		if ph, ok := c.canon(fs.st.Val).(*ssa.Phi); ok {
+			for i, e := range ph.Edges {
+				child, direct, bad := classify(e)
+				if bad != "" {
+					okShape, why = false, bad
+					continue
+				}
+				stores = append(stores, rs{fs.st, child, direct, c03EdgeGuards(ph.Block().Preds[i], ph.Block())})
+			}
+			continue
+		}
+		child, direct, bad := classify(fs.st.Val)
+		if bad != "" {
+			okShape, why = false, bad
+			continue
+		}
+		stores = append(stores, rs{fs.st, child, direct, fw.Guards(fs.st.Block())})
 	}
 	nFold := 0
 	var child ssa.Value
@@ -169,8 +197,8 @@ func c03Post(r *fw.Run, c *c03x) {
 		for _, s := range stores {
 			var flag *ssa.Phi
 			var fg fw.Guard
-			for _, g := range fw.Guards(s.st.Block()) {
-				gn := g.Normalize()
+			for _, g := range s.guards {
+				gn := c03Norm(g)
 				if ph, ok := gn.Cond.(*ssa.Phi); ok && types.Identical(ph.Type().Underlying(), types.Typ[types.Bool]) {
 					flag, fg = ph, gn
 				}
@@ -223,7 +251,7 @@ func c03Post(r *fw.Run, c *c03x) {
 			if !ok {
 				continue
 			}
-			g := fw.Guard{Cond: ifi.Cond, True: true}.Normalize()
+			g := c03Norm(fw.Guard{Cond: ifi.Cond, True: true})
 			trueSucc := b.Succs[0]
 			if !g.True {
 				trueSucc = b.Succs[1]
@@ -260,6 +288,19 @@ func c03Post(r *fw.Run, c *c03x) {
 			}
 		}
 		ru.Check(!escaped && nRootSkip >= 1, "postProcess:every-child-counted", c.at(W), "a child is skipped only when IsRoot or synthetic", "postProcess: some child of the same buffer can pass the loop without being folded into v.Range (a skip condition other than IsRoot/synthetic, or the IsRoot exclusion is gone and nested-buffer lengths leak into the parent's range)")
+		// (b') a skipped child only ends its own iteration: the skip edge leads to the next iteration
+		// (continue), never out of the loop (break / return) - later children would drop out of the range
+		okCont := false
+		if hdr := c03LoopHeader(body); hdr != nil {
+			loop := c03NaturalLoop(hdr)
+			okCont = len(cut) >= 1
+			for e := range cut {
+				if !c03StaysInLoop(e[1], hdr, loop) {
+					okCont = false
+				}
+			}
+		}
+		ru.Check(okCont, "postProcess:skip-continues", c.at(W), "the IsRoot / synthetic skip goes on with the next child", "postProcess: skipping a nested-buffer or synthetic child leaves the children loop (break/return instead of continue): the children after it are not folded into v.Range and the compound no longer spans them")
 		rootGuard := true
 		for _, s := range stores {
 			val, found := c03GuardOn(s.st.Block(), func(cond ssa.Value) bool { return c.pathOf(cond).is(child, ".IsRoot") })
@@ -307,6 +348,17 @@ func c03Post(r *fw.Run, c *c03x) {
 					if !ok {
 						return
 					}
+					if k, isK := c03ConstInt(c.canon(ret.Results[0])); isK {
+						// hand-written three-way comparison: the sign returned must be the one the
+						// conditions on (a.Range.Start, b.Range.Start) at this return establish
+						lt, gt, le, ge, eq := c.orderFacts(ret.Block(), c03LinTerm(a, ".Range.Start"), c03LinTerm(b, ".Range.Start"))
+						switch {
+						case k < 0 && lt, k > 0 && gt, k == 0 && (eq || (le && ge)):
+						default:
+							okCmp = false
+						}
+						return
+					}
 					call, ok := c.canon(ret.Results[0]).(*ssa.Call)
 					if !ok || fw.CalleeName(call) != "cmp.Compare" {
 						und = true
@@ -317,7 +369,7 @@ func c03Post(r *fw.Run, c *c03x) {
 					}
 				})
 				if und {
-					ru.Undecided("postProcess:sort-order", c.at(cf), "comparator is not a cmp.Compare call")
+					ru.Undecided("postProcess:sort-order", c.at(cf), "comparator is neither a cmp.Compare call nor a three-way comparison with constant results")
 				} else {
 					ru.Check(okCmp, "postProcess:sort-order", c.at(cf), "cmp.Compare(a.Range.Start, b.Range.Start)", "postProcess: the comparator is not ascending on Range.Start of (a, b): struct fields are not ordered by start position")
 				}
@@ -363,6 +415,203 @@ func c03Post(r *fw.Run, c *c03x) {
 	ru.Check(okStructIdx && nStruct >= 1, "postProcess:struct-index", c.at(W), "struct children: Index = -1", "postProcess: struct children do not get Index -1")
 }
 
+// loopHeader: the header of the innermost loop containing block b (the closest dominator of b that
+// has a back edge from a block it dominates and from which b is inside the natural loop).
+func c03LoopHeader(b *ssa.BasicBlock) *ssa.BasicBlock {
+	for h := b; h != nil; h = h.Idom() {
+		back := false
+		for _, p := range h.Preds {
+			if h.Dominates(p) {
+				back = true
+			}
+		}
+		if back && c03NaturalLoop(h)[b] {
+			return h
+		}
+	}
+	return nil
+}
+
+// naturalLoop: the blocks of the loop with header h (h and everything that reaches a back edge of h
+// without passing h).
+func c03NaturalLoop(h *ssa.BasicBlock) map[*ssa.BasicBlock]bool {
+	loop := map[*ssa.BasicBlock]bool{h: true}
+	var stack []*ssa.BasicBlock
+	for _, p := range h.Preds {
+		if h.Dominates(p) {
+			stack = append(stack, p)
+		}
+	}
+	for len(stack) > 0 {
+		b := stack[len(stack)-1]
+		stack = stack[:len(stack)-1]
+		if loop[b] {
+			continue
+		}
+		loop[b] = true
+		stack = append(stack, b.Preds...)
+	}
+	return loop
+}
+
+// staysInLoop: every path from block t reaches the header h again without leaving the loop.
+func c03StaysInLoop(t, h *ssa.BasicBlock, loop map[*ssa.BasicBlock]bool) bool {
+	seen := map[*ssa.BasicBlock]bool{}
+	stack := []*ssa.BasicBlock{t}
+	for len(stack) > 0 {
+		b := stack[len(stack)-1]
+		stack = stack[:len(stack)-1]
+		if b == h || seen[b] {
+			continue
+		}
+		seen[b] = true
+		if !loop[b] || len(b.Succs) == 0 {
+			return false
+		}
+		stack = append(stack, b.Succs...)
+	}
+	return true
+}
+
+// minMaxOf: v is min(x, y) / max(x, y) of two integer values: the builtin, or a two-way phi whose
+// every incoming value is known, on its edge, to be <= (min) resp. >= (max) the other one.
+func (c *c03x) minMaxOf(v ssa.Value) (kind string, x, y *c03Lin, ok bool) {
+	if call, isCall := v.(*ssa.Call); isCall {
+		for _, k := range []string{"min", "max"} {
+			if fw.IsBuiltinCall(call, k) && len(call.Common().Args) == 2 {
+				return k, c.linOf(call.Common().Args[0]), c.linOf(call.Common().Args[1]), true
+			}
+		}
+		return "", nil, nil, false
+	}
+	ph, isPhi := v.(*ssa.Phi)
+	if !isPhi || len(ph.Edges) != 2 || !c03IsIntT(ph.Type()) {
+		return "", nil, nil, false
+	}
+	l := [2]*c03Lin{c.linOf(ph.Edges[0]), c.linOf(ph.Edges[1])}
+	if l[0].equal(l[1]) {
+		return "", nil, nil, false
+	}
+	for i := 0; i < 2; i++ {
+		chosen, other := l[i], l[1-i]
+		rel := "" // relation chosen REL other established on this edge
+		for _, g := range c03EdgeGuards(ph.Block().Preds[i], ph.Block()) {
+			g = c03Norm(g)
+			bo, isBin := g.Cond.(*ssa.BinOp)
+			if !isBin {
+				continue
+			}
+			op := bo.Op
+			if !g.True {
+				switch op {
+				case token.LSS:
+					op = token.GEQ
+				case token.LEQ:
+					op = token.GTR
+				case token.GTR:
+					op = token.LEQ
+				case token.GEQ:
+					op = token.LSS
+				default:
+					continue
+				}
+			}
+			lx, ly := c.linOf(bo.X), c.linOf(bo.Y)
+			if lx.equal(other) && ly.equal(chosen) { // other OP chosen  ==  chosen OP' other
+				switch op {
+				case token.LSS:
+					op = token.GTR
+				case token.LEQ:
+					op = token.GEQ
+				case token.GTR:
+					op = token.LSS
+				case token.GEQ:
+					op = token.LEQ
+				}
+			} else if !(lx.equal(chosen) && ly.equal(other)) {
+				continue
+			}
+			switch op {
+			case token.LSS, token.LEQ:
+				rel = "min"
+			case token.GTR, token.GEQ:
+				rel = "max"
+			}
+		}
+		if rel == "" || (kind != "" && kind != rel) {
+			return "", nil, nil, false
+		}
+		kind = rel
+	}
+	return kind, l[0], l[1], true
+}
+
+// orderFacts: what the branch conditions holding at block b say about x versus y.
+func (c *c03x) orderFacts(b *ssa.BasicBlock, x, y *c03Lin) (lt, gt, le, ge, eq bool) {
+	for _, g := range fw.Guards(b) {
+		g = c03Norm(g)
+		bo, ok := g.Cond.(*ssa.BinOp)
+		if !ok {
+			continue
+		}
+		op := bo.Op
+		lx, ly := c.linOf(bo.X), c.linOf(bo.Y)
+		if lx.equal(y) && ly.equal(x) {
+			switch op {
+			case token.LSS:
+				op = token.GTR
+			case token.LEQ:
+				op = token.GEQ
+			case token.GTR:
+				op = token.LSS
+			case token.GEQ:
+				op = token.LEQ
+			}
+		} else if !(lx.equal(x) && ly.equal(y)) {
+			continue
+		}
+		if !g.True {
+			switch op {
+			case token.LSS:
+				op = token.GEQ
+			case token.LEQ:
+				op = token.GTR
+			case token.GTR:
+				op = token.LEQ
+			case token.GEQ:
+				op = token.LSS
+			case token.EQL:
+				op = token.NEQ
+			case token.NEQ:
+				op = token.EQL
+			}
+		}
+		switch op {
+		case token.LSS:
+			lt, le = true, true
+		case token.GTR:
+			gt, ge = true, true
+		case token.LEQ:
+			le = true
+		case token.GEQ:
+			ge = true
+		case token.EQL:
+			eq, le, ge = true, true, true
+		}
+	}
+	return
+}
+
+// edgeGuards: the conditions known when control flows from pred to succ: those at pred plus the
+// outcome of pred's own terminating If.
+func c03EdgeGuards(pred, succ *ssa.BasicBlock) []fw.Guard {
+	out := append([]fw.Guard{}, fw.Guards(pred)...)
+	if ifi, ok := pred.Instrs[len(pred.Instrs)-1].(*ssa.If); ok && len(pred.Succs) == 2 && pred.Succs[0] != pred.Succs[1] {
+		out = append(out, fw.Guard{Cond: ifi.Cond, True: pred.Succs[0] == succ, If: ifi})
+	}
+	return out
+}
+
 // flagsOfChild: v is child.V.(Scalarable).ScalarFlags().
 func (c *c03x) flagsOfChild(v ssa.Value, child ssa.Value) bool {
 	call, ok := c.canon(v).(*ssa.Call)
@@ -401,18 +650,13 @@ func c03MinMax(r *fw.Run, c *c03x) {
 		return
 	}
 	a, b := ssa.Value(f.Params[0]), ssa.Value(f.Params[1])
-	builtinOf := func(v ssa.Value, name string) []ssa.Value {
-		call, ok := v.(*ssa.Call)
-		if !ok || !fw.IsBuiltinCall(call, name) || len(call.Common().Args) != 2 {
-			return nil
-		}
-		return call.Common().Args
-	}
-	pair := func(args []ssa.Value, x, y *c03Lin) bool {
-		if args == nil {
+	// pair: v is the minimum / maximum (kind) of exactly the two linear forms x and y, written with
+	// the builtin or as a compare-and-select
+	pair := func(v ssa.Value, kind string, x, y *c03Lin) bool {
+		k, l0, l1, ok := c.minMaxOf(v)
+		if !ok || k != kind {
 			return false
 		}
-		l0, l1 := c.linOf(args[0]), c.linOf(args[1])
 		return (l0.equal(x) && l1.equal(y)) || (l0.equal(y) && l1.equal(x))
 	}
 	okS, okL := true, true
@@ -425,14 +669,14 @@ func c03MinMax(r *fw.Run, c *c03x) {
 		nRet++
 		s, l := c.rangeParts(ret.Results[0], 0)
 		st, ok := c03SingleTerm(s)
-		if !ok || st.path != "" || !pair(builtinOf(st.root, "min"), c03LinTerm(a, ".Start"), c03LinTerm(b, ".Start")) {
+		if !ok || st.path != "" || !pair(st.root, "min", c03LinTerm(a, ".Start"), c03LinTerm(b, ".Start")) {
 			okS = false
 		}
 		good := false
 		if ok && l != nil && l.c == 0 && len(l.t) == 2 && l.t[st] == -1 {
 			for t, k := range l.t {
 				if k == 1 && t.path == "" {
-					good = pair(builtinOf(t.root, "max"), c03LinTerm(a, ".Start").plus(c03LinTerm(a, ".Len")), c03LinTerm(b, ".Start").plus(c03LinTerm(b, ".Len")))
+					good = pair(t.root, "max", c03LinTerm(a, ".Start").plus(c03LinTerm(a, ".Len")), c03LinTerm(b, ".Start").plus(c03LinTerm(b, ".Len")))
 				}
 			}
 		}
@@ -552,7 +796,7 @@ func c03Walk(r *fw.Run, c *c03x) {
 		one, isRoot, notStart := false, false, false
 		var oneIf *ssa.If
 		for _, g := range fw.Guards(b) {
-			gn := g.Normalize()
+			gn := c03Norm(g)
 			pp := c.pathOf(gn.Cond)
 			if pp.is(opts, ".OneRoot") && gn.True {
 				one, oneIf = true, g.If
